@@ -77,10 +77,21 @@ class Evaluator:
     def hook_for(self, f):
         if f in self.hooks:
             return self.hooks[f]
-        for k, v in self.hooks.items():
-            if k.endswith("*") and not k.endswith("operator*") and f.startswith(k[:-1]):
-                return v
-        return None
+        # prefix hooks (`name*`): the answer per callee is remembered until the hook table changes
+        c = self.__dict__.get("_hook_cache")
+        if c is None or c[0] != len(self.hooks) or c[1] is not self.hooks:
+            c = self.__dict__["_hook_cache"] = (len(self.hooks), self.hooks, {},
+                                                [(k[:-1], v) for k, v in self.hooks.items() if k.endswith("*") and not k.endswith("operator*")])
+        memo = c[2]
+        if f in memo:
+            return memo[f]
+        r = None
+        for pre, v in c[3]:
+            if f.startswith(pre):
+                r = v
+                break
+        memo[f] = r
+        return r
 
     def call(self, func, this, args):
         env = {}
@@ -323,7 +334,9 @@ class Evaluator:
                 # std::runtime_error (what every throw of the repository and libzwerg's error bridge raise)
                 et = getattr(t, "etype", None) or "std::runtime_error"
                 fam = {"std::runtime_error": ("std::runtime_error", "std::exception"), "std::logic_error": ("std::logic_error", "std::exception"),
-                       "std::bad_alloc": ("std::bad_alloc", "std::exception")}.get(et, (et,))
+                       "std::bad_alloc": ("std::bad_alloc", "std::exception"),
+                       "std::out_of_range": ("std::out_of_range", "std::logic_error", "std::exception"),
+                       "std::invalid_argument": ("std::invalid_argument", "std::logic_error", "std::exception")}.get(et, (et,))
                 h = None
                 for cand in hs:
                     ht = cand.get("t") or "..."
@@ -509,7 +522,7 @@ class Evaluator:
             if e.get("op") in ("==", "!=", "<", ">", "<=", ">=") and len(e.get("a", [])) == 2 and e.get("obj") is None:
                 a = self.eval(e["a"][0], env, this)
                 b = self.eval(e["a"][1], env, this)
-                if has_body and (hasattr(a, "_cls") or hasattr(b, "_cls")):
+                if has_body and (hasattr(a, "_cls") or hasattr(b, "_cls") or type(a).__name__ == "Struct" or type(b).__name__ == "Struct"):
                     # an interpreted class instance: its own comparison operator decides, not object identity
                     callee = self.prog.funcs[e["fid"]]
                     if e.get("ismethod") and not e.get("static"):
